@@ -64,8 +64,13 @@ def walk_language(req):
     lang = req["lang"]
     loader = LocaleDataLoader()
     targets = [("languages", lang)] + [("locales", loc) for loc in language_locale_dict.get(lang, [])]
+    if req.get("targets") is not None:
+        targets = [t for t in targets if t[1] in req["targets"]]
     out = []
     lang_words = None
+    if req.get("targets") is not None and req.get("quick"):
+        li = loader.get_locale(lang).info
+        lang_words = {(k, w) for k in MKEYS + WKEYS for w in li.get(k, [])}
     for kind, name in targets:
         try:
             loc = loader.get_locale(name)
@@ -107,8 +112,10 @@ def walk_language(req):
                        "assign": assign, "writes": resolved, "dictval": dv, "runs": []}
                 if wk == "month":
                     probes = [(d, y) for d in req["days"] for y in req["years"]]
+                    if kind == "locales" and len(probes) > 8:
+                        probes = probes[:: max(1, len(probes) // 8)]
                 else:
-                    probes = req["refs"]
+                    probes = req["refs"] if kind == "languages" else req["refs"][:: max(1, len(req["refs"]) // 4)]
                 for pr in probes:
                     if wk == "month":
                         d, y = pr
@@ -194,6 +201,8 @@ def walk_relative(req):
     lang = req["lang"]
     loader = LocaleDataLoader()
     targets = [("languages", lang)] + [("locales", loc) for loc in language_locale_dict.get(lang, [])]
+    if req.get("targets") is not None:
+        targets = [t for t in targets if t[1] in req["targets"]]
     out = []
     en_cache = {}
     lang_sig = None
